@@ -37,12 +37,12 @@ Qed.
 (** The shared/private decision: no influence on any input. *)
 Lemma shared_irrelevant_all_inputs omit nrefs data :
   decode_record omit nrefs true data = decode_record omit nrefs false data.
-Proof. reflexivity. Qed.
+Proof. unfold decode_record. rewrite !storage_not_reused. reflexivity. Qed.
 
 Lemma no_alias omit nrefs sh data res :
   decode_record omit nrefs sh data = Ok res -> snd res = false.
 Proof.
-  unfold decode_record, bam_Read_nameLen, bam_Read_cigarLen, bam_Read_seqLen.
+  unfold decode_record, bam_Read_nameLen, bam_Read_cigarLen, bam_Read_seqLen. rewrite storage_not_reused.
   destruct (read_fixed bam_Read_fixed (data, false) (fun _ => 0)) as [env b].
   destruct (env 3 <? 1); [discriminate|].
   destruct (b_unsafe b (env 3 - 1)) as [nm b1].
